@@ -303,9 +303,133 @@ def _check_luba_dispatch(run, world, folder, mod, c):
     run.floor("LUBA event delivery sites", nsites, 3)
 
 
+def _check_handler_guards(run, world, folder, mod, c):
+    """The handlers of a complete LUBA message re-check the message type and
+    raise ValueError when it is not theirs; the receiver is reset only after
+    the handler returns.  So the dispatch may hand a handler nothing its own
+    guard refuses: with the handlers written out in _process_byte, the
+    message types that satisfy every condition that must hold at a type
+    guard's raise (the dispatch test, the guard itself) are evaluated over
+    the members of the message-type enumeration; none may remain."""
+    if "_process_luba_event" not in c.methods:
+        return
+    run.rule("R-FSM-GUARD", "LUBA: no message type the dispatch sends to a "
+             "handler is refused by the handler's own type guard (the raise "
+             "would skip reset())")
+    from ..normal import normalise
+    from ..cfg import forward
+    from ..inline import acopy
+    from .. import astq
+    P = c.qname + "._process_byte"
+    fn = normalise(c.methods["_process_byte"][1], world, SER, c,
+                   primitives=("reset", "_process_byte", "data_received"),
+                   aliases="params")
+    # a local bound once to <enum>(self._buffer[1]) is the message type
+    asg = {}
+    for n in ast.walk(fn):
+        if isinstance(n, ast.Assign):
+            for t in n.targets:
+                if isinstance(t, ast.Name):
+                    asg.setdefault(t.id, []).append(n.value)
+    tdefs = {k: vs[0] for k, vs in asg.items() if all(
+        isinstance(v, ast.Call) and len(v.args) == 1 and
+        unparse(v.args[0]) == "self._buffer[1]" for v in vs)}
+    enum = None
+    for v in list(tdefs.values()) + [
+            n for n in ast.walk(fn) if isinstance(n, ast.Call) and len(
+                n.args) == 1 and unparse(n.args[0]) == "self._buffer[1]"]:
+        k = world.resolve_class(SER, v.func)
+        if k is not None:
+            enum = k
+            break
+    if enum is None:
+        raise AnalysisError("R-FSM-GUARD: the message type (an enumeration "
+                            "of self._buffer[1]) is not found in %s" % P)
+    members = folder.enum_members(enum)
+
+    def is_type(e):
+        if isinstance(e, ast.Name) and e.id in tdefs:
+            return True
+        return isinstance(e, ast.Call) and len(e.args) == 1 and unparse(
+            e.args[0]) == "self._buffer[1]"
+
+    def member_of(e):
+        if isinstance(e, ast.Attribute) and e.attr in members:
+            k = world.resolve_class(SER, e.value)
+            if k is enum:
+                return e.attr
+        return None
+
+    def admits(test, pol):
+        """set of member names for which `test` has truth value pol, or None
+        when the test is not about the message type"""
+        if not (isinstance(test, ast.Compare) and len(test.ops) == 1):
+            return None
+        l, op, r = test.left, test.ops[0], test.comparators[0]
+        if is_type(r) and not is_type(l) and isinstance(
+                op, (ast.Eq, ast.NotEq, ast.Is, ast.IsNot)):
+            l, r = r, l
+        if not is_type(l):
+            return None
+        if isinstance(op, (ast.Eq, ast.NotEq, ast.Is, ast.IsNot)):
+            m = member_of(r)
+            if m is None:
+                return None
+            yes = {m}
+            if isinstance(op, (ast.NotEq, ast.IsNot)):
+                yes = set(members) - yes
+        elif isinstance(op, (ast.In, ast.NotIn)) and isinstance(
+                r, (ast.Tuple, ast.List, ast.Set)):
+            ms = [member_of(x) for x in r.elts]
+            if any(x is None for x in ms):
+                return None
+            yes = set(ms)
+            if isinstance(op, ast.NotIn):
+                yes = set(members) - yes
+        else:
+            return None
+        return yes if pol else set(members) - yes
+    cfg = CFG(fn, may_raise=explicit_raise_only, name=P)
+
+    def edge(src, label, dst, st):
+        if src.kind == "test" and label in ("T", "F"):
+            return st | {(src.id, label == "T")}
+        return st
+    IN = forward(cfg, lambda n, st: st, must=True, edge_transfer=edge)
+    nguards = 0
+    for n in cfg.reachable:
+        if not (n.kind == "stmt" and isinstance(n.ast, ast.Raise)):
+            continue
+        facts = IN.get(n.id, frozenset())
+        # the guard: the nearest test before the raise is about the type
+        about = [(cfg.nodes[i], b) for (i, b) in facts
+                 if admits(cfg.nodes[i].ast, b) is not None]
+        direct = [p_ for (l_, p_) in n.pred if p_.kind == "test" and
+                  admits(p_.ast, True) is not None]
+        if not direct:
+            continue
+        nguards += 1
+        left = set(members)
+        for (tn, b) in about:
+            left &= admits(tn.ast, b)
+        run.ob("R-FSM-GUARD", "%s#%s" % (P, unparse(direct[0].ast, 80)),
+               not left,
+               "a complete, checksum-valid message of type %s is sent to a "
+               "handler whose own guard `%s` refuses it: the ValueError "
+               "leaves _process_byte before reset(), the receiver stays in "
+               "its last state and discards the next well-formed frame" % (
+                   sorted(left), unparse(direct[0].ast, 80)),
+               where(mod, n),
+               sample={"rule": "R-FSM-GUARD", "guard": unparse(
+                   direct[0].ast, 80), "types_reaching_the_raise":
+                   sorted(left)})
+    run.floor("LUBA handler type guards", nguards, 3)
+
+
 def _check_proto(run, world, folder, mod, c):
     _check_defassign(run, world, mod, c)
     _check_luba_dispatch(run, world, folder, mod, c)
+    _check_handler_guards(run, world, folder, mod, c)
     P = c.qname
     fn = c.methods["_process_byte"][1]
     rfn = c.methods["reset"][1]
@@ -1139,6 +1263,24 @@ def _accept_interval(body, arg, folder, c):
         kw_defaults=[], defaults=[]), body=list(body), decorator_list=[],
         returns=None, type_comment=None, type_params=[])
     ast.fix_missing_locations(f2)
+    # a local naming a range (`valid = range(1, n)`; `x in valid`) reads as
+    # the range
+    from .. import astq
+    from ..inline import acopy
+    rdefs = {k: v for k, v in astq._defs(f2).items() if isinstance(
+        v, ast.Call) and unparse(v.func) == "range"}
+    if rdefs:
+        f2 = acopy(f2)
+
+        class R(ast.NodeTransformer):
+            def visit_Compare(self, n):
+                self.generic_visit(n)
+                n.comparators = [acopy(rdefs[x.id]) if isinstance(
+                    x, ast.Name) and x.id in rdefs else x
+                    for x in n.comparators]
+                return n
+        R().visit(f2)
+        ast.fix_missing_locations(f2)
     try:
         ps = paths.summaries(f2)
     except paths.Unsupported:
